@@ -115,6 +115,21 @@ CLAIMED = {
         "Exhaustive for n<=7, K<=2/3 candidates; sampled n<=18; R3 margins as C07.",
         "TLA+ greedy-loop model checked with TLC + spec-to-code replay + trace validation",
     ),
+    "C16": (
+        "7/C16",
+        "AnomalySets.tla (ColsAdmit), Capa.tla (AffectedCode, AffectedAdmitted), Trace_Capa.tla (ColsVerdict)",
+        "TLC checks that every column list find_affected_components can produce (argsort in decreasing "
+        "order with any tie order, cumulative penalised sum, arg-max prefix) is admitted by the set-theoretic "
+        "definition (top-k columns, decreasing, k maximises the penalised cumulative saving) for every savings "
+        "vector and integer (alpha, betas) with P up to 4..6; TLC emits the admitted lists per interval and "
+        "find_affected_components is run on each; MVCAPA runs on data with planted dense / sparse / "
+        "single-column / point anomalies (p in 2..6) are validated by TLC with the component savings "
+        "recorded from an independent saving and the sparse / point penalties from the public penalty "
+        "functions, and the cells marked by transform are compared with predict.",
+        "Ties within tol*unit are not judged in stage C (the property excludes ties by margin); the "
+        "numeric penalty values are taken from the public penalty functions (C15).",
+        "TLA+ operator-level refinement checked with TLC + spec-to-code replay + trace validation",
+    ),
 }
 
 NOT_YET = {}
